@@ -12,7 +12,8 @@ import GdcVerif.Gen.Facts
     sync/atomic/unsafe, nothing is unclassified;
   * `validate_noop_on_valid_*`: over the generated store conditions of each `Validate` method, no store
     executes on an already-valid parameters object — for all seven parameter types (htj2k since fix 870ac76);
-  * `codec_parameters_argument_stores`: what else is stored through the `parameters` argument.
+  * `no_direct_store_into_parameters_outside_validate`, `codec_parameters_deep_entries`: stores through the
+    `parameters` argument of the codec methods.
 
   What no theorem here exhibits: the Go memory model and the race detector's view of the execution; the step
   from "no store in the typed AST" to "no data race" is the trusted reading of the facts.
@@ -163,18 +164,34 @@ theorem validate_noop_on_valid_htj2k (p : V_jpeg2000_htj2k_Parameters)
 example :
     ((V_jpeg2000_htj2k_Parameters.mk 64 64 5 80 64 64).storeConds.filter (·.2)).map (·.1) = [] := by decide
 
-/-- F2b: the only stores through the `parameters` argument of any codec method are the parameter object's own
-    `Validate` (store-free on valid objects, above) and — by the analysis' object-level aliasing — the three
-    JPEG 2000 Encode paths whose per-call encoder captured the MCT arrays of a generic parameters object
-    (the arrays are only read; checked dynamically by `fact-codec-params-changed`).  A direct store such as
-    finding `c18-race-…SetParameter` (fixed by c7914a9) would appear here as an extra entry -/
-theorem codec_parameters_argument_stores :
-    Gen.Facts.codecParameterStores.filter (fun s => s.2.2 != "Validate") =
+/-- F2b, the static form of "a shared already-valid parameters object is only read": no codec method — nor
+    anything it calls with the pointer — stores INTO the parameters object it was handed (the typed pointer
+    obtained from the `parameters` argument by type assertion, or anything derived from it without a copy),
+    except through the object's own `Validate` (store-free on valid objects, above).  A store that is undone
+    before the call returns is still a store and would be listed (seeded change C18-m1: `p.NumLevels = clamped`
+    with a deferred restore in lossy encodeFrameOnce appears as a `direct` entry, with the precise store in
+    `typedParameterDirectStores`) -/
+theorem no_direct_store_into_parameters_outside_validate :
+    Gen.Facts.codecParameterStores.filter (fun s => s.2.2.2 == "direct" && s.2.2.1 != "Validate") = [] := by
+  decide
+
+/-- what remains is over-approximation: three JPEG 2000 Encode paths whose per-call encoder captured the MCT
+    arrays of a generic parameters object — stores somewhere in memory REACHABLE from the argument (the arrays
+    are only read; the shared objects are hashed before, during and after the concurrent workload by the
+    harness).  Decode takes a parameters object only in htj2k (Validate) -/
+theorem codec_parameters_deep_entries :
+    (Gen.Facts.codecParameterStores.filter (fun s => s.2.2.1 != "Validate")).map (fun s => (s.1, s.2.1, s.2.2.1)) =
       [("jpeg2000/lossless.Codec", "Encode", "call:jpeg2000/lossless.(*Codec).encodeLosslessAllFrames"),
        ("jpeg2000/lossy.Codec", "Encode", "call:jpeg2000/lossy.(*Codec).encodeFrameOnce"),
        ("jpeg2000/lossy.Codec", "Encode", "call:jpeg2000/lossy.(*Codec).encodeFrameWithTargetRatio")] ∧
-    (Gen.Facts.codecParameterStores.filter (fun s => s.2.1 == "Decode")).map (·.1) = ["jpeg2000/htj2k.Codec"] := by
+    ((Gen.Facts.codecParameterStores.filter (fun s => s.2.1 == "Decode")).map (·.1)).eraseDups = ["jpeg2000/htj2k.Codec"] := by
   decide
+
+/-- helpers that store into a typed parameters object they receive only ever get a freshly created one: the
+    only such helper fills the object `extractLosslessParameters` has just allocated -/
+theorem typed_parameter_helpers :
+    (Gen.Facts.typedParameterDirectStores.map (·.1)).eraseDups =
+      ["jpeg2000/lossless.(*Codec).extractBasicLosslessParams"] := by decide
 
 /-- every parameter type with a Validate method is covered above -/
 theorem validate_types_covered :
